@@ -17,6 +17,7 @@
 -/
 import MitmVerif.Model.C07
 import MitmVerif.Model.C07_Reader
+import MitmVerif.Model.C07_Exchange
 namespace MitmVerif.Props.C07
 open MitmVerif MitmVerif.C07
 
@@ -809,6 +810,114 @@ example : segEvents (.size {}) [[0x33, 0x0d], [0x0a, 0x61], [0x62, 0x63, 0x0d, 0
     = [.data [0x61], .data [0x62, 0x63], .eom] := by decide
 -- the reader does refuse: a chunk footer that is not CRLF
 example : (feed (.size {}) [0x31, 0x0d, 0x0a, 0x61, 0x58]).2 = [.byte 0x61, .cut, .err] := by decide
+
+/-! ### one exchange, two directions (seed c07-4: a request-side verdict must never reach the response side) -/
+
+/-- the request side has not been refused before any event of the history (after a refused request mitmproxy answers
+    with the error itself and nothing of a response is handled) -/
+def ReqAlive (o : Opts) (rq rs : Side) : XSt → List (Bool × Ev) → Prop
+  | _, [] => True
+  | x, e :: es => x.req.phase ≠ .errored ∧ ReqAlive o rq rs (stepX o rq rs x e).1 es
+
+def RespAlive (o : Opts) (rq rs : Side) : XSt → List (Bool × Ev) → Prop
+  | _, [] => True
+  | x, e :: es => x.resp.phase ≠ .errored ∧ RespAlive o rq rs (stepX o rq rs x e).1 es
+
+private theorem outsOf_append (d : Bool) (a b : List (Bool × Out)) : outsOf d (a ++ b) = outsOf d a ++ outsOf d b := by
+  induction a with
+  | nil => simp [outsOf]
+  | cons x xs ih => obtain ⟨d', out⟩ := x; by_cases h : d' = d <;> simp [outsOf, h, ih]
+
+private theorem outsOf_map_same (d : Bool) (l : List Out) : outsOf d (l.map (fun out => (d, out))) = l := by
+  induction l with
+  | nil => simp [outsOf]
+  | cons x xs ih => simp [outsOf, ih]
+
+private theorem outsOf_map_other (d d' : Bool) (h : d' ≠ d) (l : List Out) : outsOf d (l.map (fun out => (d', out))) = [] := by
+  induction l with
+  | nil => simp [outsOf]
+  | cons x xs ih => simp [outsOf, h, ih]
+
+/-- **response_side_independent.** In every history of an exchange in which the request is not refused, the response
+    side — its state (buffer, phase, stored content), every hook, error and byte it emits — is exactly what the response
+    events alone produce: no verdict, flag or buffer of the request side takes part in it. -/
+theorem response_side_independent (rq rs : Side) (x : XSt) (evs : List (Bool × Ev)) (h : ReqAlive o rq rs x evs) :
+    (runX o rq rs x evs).1.resp = (run o true rs.pol rs.f x.resp (evsOf true evs)).1 ∧
+    outsOf true (runX o rq rs x evs).2 = (run o true rs.pol rs.f x.resp (evsOf true evs)).2 := by
+  induction evs generalizing x with
+  | nil => simp [runX, evsOf, run, outsOf]
+  | cons e es ih =>
+    obtain ⟨d, ev⟩ := e
+    obtain ⟨h1, h2⟩ := h
+    cases d
+    · -- a request-side event: the response side is untouched
+      have hresp : (stepX o rq rs x (false, ev)).1.resp = x.resp := by
+        simp only [stepX]; split <;> rfl
+      have houts : outsOf true (stepX o rq rs x (false, ev)).2 = [] := by
+        simp only [stepX]; split
+        · rfl
+        · exact outsOf_map_other true false (by decide) _
+      have := ih _ h2
+      simp only [runX, evsOf, outsOf_append, houts, List.nil_append]
+      rw [hresp] at this
+      simpa using this
+    · have hstep : stepX o rq rs x (true, ev) =
+          ({ x with resp := (step o true rs.pol rs.f x.resp ev).1 },
+           (step o true rs.pol rs.f x.resp ev).2.map (fun out => (true, out))) := by
+        simp [stepX, h1]
+      have := ih _ h2
+      rw [hstep] at this
+      simp only [runX, evsOf, hstep, outsOf_append, outsOf_map_same, run, if_true]
+      exact ⟨this.1, by rw [this.2]⟩
+
+/-- **request_side_independent**: the mirror image (as long as the response has not been refused). -/
+theorem request_side_independent (rq rs : Side) (x : XSt) (evs : List (Bool × Ev)) (h : RespAlive o rq rs x evs) :
+    (runX o rq rs x evs).1.req = (run o false rq.pol rq.f x.req (evsOf false evs)).1 ∧
+    outsOf false (runX o rq rs x evs).2 = (run o false rq.pol rq.f x.req (evsOf false evs)).2 := by
+  induction evs generalizing x with
+  | nil => simp [runX, evsOf, run, outsOf]
+  | cons e es ih =>
+    obtain ⟨d, ev⟩ := e
+    obtain ⟨h1, h2⟩ := h
+    cases d
+    · have hstep : stepX o rq rs x (false, ev) =
+          ({ x with req := (step o false rq.pol rq.f x.req ev).1 },
+           (step o false rq.pol rq.f x.req ev).2.map (fun out => (false, out))) := by
+        simp [stepX, h1]
+      have := ih _ h2
+      rw [hstep] at this
+      simp only [runX, evsOf, hstep, outsOf_append, outsOf_map_same, run, if_true]
+      exact ⟨this.1, by rw [this.2]⟩
+    · have hreq : (stepX o rq rs x (true, ev)).1.req = x.req := by
+        simp only [stepX]; split <;> rfl
+      have houts : outsOf false (stepX o rq rs x (true, ev)).2 = [] := by
+        simp only [stepX]; split
+        · rfl
+        · exact outsOf_map_other false true (by decide) _
+      have := ih _ h2
+      simp only [runX, evsOf, outsOf_append, houts, List.nil_append]
+      rw [hreq] at this
+      simpa using this
+
+/-- **request_verdict_never_reaches_response.** Two exchanges with arbitrary, different request sides (other bodies,
+    framings, policies, verdicts) but the same response events produce the same response-side outputs and state. -/
+theorem request_verdict_never_reaches_response (rq rq' rs : Side) (evs evs' : List (Bool × Ev))
+    (hsame : evsOf true evs = evsOf true evs')
+    (h : ReqAlive o rq rs {} evs) (h' : ReqAlive o rq' rs {} evs') :
+    outsOf true (runX o rq rs {} evs).2 = outsOf true (runX o rq' rs {} evs').2 ∧
+    (runX o rq rs {} evs).1.resp = (runX o rq' rs {} evs').1.resp := by
+  obtain ⟨a1, a2⟩ := response_side_independent o rq rs {} evs h
+  obtain ⟨b1, b2⟩ := response_side_independent o rq' rs {} evs' h'
+  rw [a1, a2, b1, b2, hsame]
+  exact ⟨rfl, rfl⟩
+
+-- non-vacuity: a small Content-Length request (within all limits), then a response over the limit: refused
+example : outsOf true (runX { limit := some 6, thr := some 3, store := false } ⟨.none, fun d => .one d⟩ ⟨.none, fun d => .one d⟩ {}
+    [(false, .headers (.known 1) false), (false, .data [0x61]), (false, .eom), (true, .headers (.known 8) false)]).2
+    = [.hookHeaders, .hookError, .errClient, .errServer] := by decide
+example : ReqAlive { limit := some 6, thr := some 3, store := false } ⟨.none, fun d => .one d⟩ ⟨.none, fun d => .one d⟩ {}
+    [(false, .headers (.known 1) false), (false, .data [0x61]), (false, .eom), (true, .headers (.known 8) false)] := by
+  simp [ReqAlive, stepX, step, check, expectedSize, exceeds]
 
 /-! ### parse_size -/
 
